@@ -1,9 +1,13 @@
 (* C04 — each needed operand is evaluated once, left to right; unneeded ones never. Property theorems only (proofs: TraceFacts.v).
    eval_t is the extracted interpreter; its second component is the sequence of lookups and native calls with argument values. *)
 Require Import ZArith NArith Bool List Arith. Import ListNotations.
-Require Import F64 Dec Types Generic Lang TraceFacts.
+Require Import F64 Dec Types Generic Lang TraceFacts Spec SpecFacts.
 Notation res_of E e := (fst (eval_t E e)).
 Notation tr_of E e := (snd (eval_t E e)).
+
+(* the sequence of lookups and native calls with their argument values is exactly the one the rules of the language definition derive *)
+Theorem C04_trace_is_the_definitions : forall E e r t, Spec.Ev E e r t <-> eval_t E e = (r, t).
+Proof. exact Ev_iff_eval_t. Qed.
 
 Theorem C04_and_false_skips_right : forall E l r lv, res_of E l = Ok lv -> as_bool lv = false -> tr_of E (EBin And l r) = tr_of E l /\ res_of E (EBin And l r) = Ok (VBool false).
 Proof. exact and_false_skips_right. Qed.
